@@ -223,6 +223,35 @@ func verif_C08_views(op, kind, cfg int) {
 	VerifReach("C08-views")
 }
 
+// the result is a row block of the right factor's own storage: r = P[r0:r0+2, :]
+// (2x3), b = P (3x3), a fresh (2x3); r0 = 0 shares the origin, r0 = 1 does not.
+func verif_C08_views2(kind, r0, left int) {
+	real := verifIsReal(kind)
+	PV := verifMatVals3(kind, "p", 3, 3, 0, real)
+	P := PV.matrix(kind)
+	Pc := PV.matrix(kind)
+	fresh := verifNullMatrix(kind, 2, 3)
+	r := P.Slice(r0, r0+2, 0, 3)
+	var p1, p2 bool
+	if left == 0 {
+		XV := verifMatVals3(kind, "x", 2, 3, 0, real)
+		p1 = VerifPanics(func() { fresh.MdotM(XV.matrix(kind), Pc) })
+		p2 = VerifPanics(func() { r.MdotM(XV.matrix(kind), P) })
+	} else {
+		// result is a column block of the left factor: r = P[:, c0:c0+2]^T-free variant
+		fresh = verifNullMatrix(kind, 3, 2)
+		r = P.Slice(0, 3, r0, r0+2)
+		XV := verifMatVals3(kind, "x", 3, 2, 0, real)
+		p1 = VerifPanics(func() { fresh.MdotM(Pc, XV.matrix(kind)) })
+		p2 = VerifPanics(func() { r.MdotM(P, XV.matrix(kind)) })
+	}
+	VerifAssert("MdotM:fresh-panics-but-aliased-does-not", p2 || !p1)
+	if !p1 && !p2 {
+		verifSameMatrices("MdotM:block-of-factor-vs-fresh", r, fresh, real)
+	}
+	VerifReach("C08-views2")
+}
+
 // MdotV / VdotM reject aliasing of the result with the vector operand: they
 // must panic exactly then.
 func verif_C08_dotpanic(kind int) {
@@ -253,5 +282,6 @@ func init() {
 	VerifRegister("verif_C08_vec", func(a []int) { verif_C08_vec(a[0], a[1], a[2], a[3], a[4], a[5]) })
 	VerifRegister("verif_C08_mat", func(a []int) { verif_C08_mat(a[0], a[1], a[2], a[3], a[4], a[5]) })
 	VerifRegister("verif_C08_views", func(a []int) { verif_C08_views(a[0], a[1], a[2]) })
+	VerifRegister("verif_C08_views2", func(a []int) { verif_C08_views2(a[0], a[1], a[2]) })
 	VerifRegister("verif_C08_dotpanic", func(a []int) { verif_C08_dotpanic(a[0]) })
 }
